@@ -30,6 +30,7 @@ func init() {
 	reg(propC10)
 	reg(propC11)
 	reg(propC12)
+	reg(propC13)
 	reg(propC14)
 	reg(propC15Dec)
 	reg(propC15Grammar)
